@@ -2009,20 +2009,26 @@ static void MPSwriteRecord(
    long long pos;
    pos = os.tellp();
 
-   spxSnprintf(buf, sizeof(buf), " %-2.2s %-8.8s", (indicator == nullptr) ? "" : indicator,
-               (name == nullptr)      ? "" : name);
-   os << buf;
+   // names are written in full; short names are padded to the classic field width of 8
+   auto pad = [](const char* s)
+   {
+      std::string t((s == nullptr) ? "" : s);
+
+      if(t.size() < 8)
+         t.resize(8, ' ');
+
+      return t;
+   };
+
+   spxSnprintf(buf, sizeof(buf), " %-2.2s ", (indicator == nullptr) ? "" : indicator);
+   os << buf << pad(name);
 
    if(name1 != nullptr)
    {
-      spxSnprintf(buf, sizeof(buf), " %-8.8s ", name1);
-      os << buf << value1;
+      os << " " << pad(name1) << " " << value1;
 
       if(name2 != nullptr)
-      {
-         spxSnprintf(buf, sizeof(buf), " %-8.8s ", name2);
-         os << buf << value2;
-      }
+         os << " " << pad(name2) << " " << value2;
    }
 
    os << std::endl;
